@@ -1518,6 +1518,7 @@ func (fr *Frame) sortSlice(st *State, g string, x ssa.Value, mc *ssa.MakeClosure
 	fc := vc.eng.contractFor(fn)
 	if fc == nil || len(fn.Params) != 2 || len(fn.FreeVars) != 1 || n != 1 {
 		vc.note("sort.Slice in %s: the less closure has no usable contract, sortedness of the result is not assumed", fr.fn.String())
+		vc.incomplete = append(vc.incomplete, "sort.Slice with a comparison function that has no usable contract: the order of the result is unknown to the verifier")
 		return st, nil
 	}
 	var lessE Expr
@@ -1530,6 +1531,7 @@ func (fr *Frame) sortSlice(st *State, g string, x ssa.Value, mc *ssa.MakeClosure
 	}
 	if lessE == nil {
 		vc.note("sort.Slice in %s: the less closure's contract has no clause of the form `result == E`, sortedness is not assumed", fr.fn.String())
+		vc.incomplete = append(vc.incomplete, "sort.Slice with a comparison function that has no usable contract: the order of the result is unknown to the verifier")
 		return st, nil
 	}
 	post := st
@@ -1557,6 +1559,7 @@ func (fr *Frame) sortSlice(st *State, g string, x ssa.Value, mc *ssa.MakeClosure
 	}()
 	if !usable {
 		vc.note("sort.Slice in %s: the contract of the less closure does not bind to the code, sortedness of the result is not assumed", fr.fn.String())
+		vc.incomplete = append(vc.incomplete, "sort.Slice with a comparison function that has no usable contract: the order of the result is unknown to the verifier")
 		return st, nil
 	}
 	inr := func(v string) string { return fmt.Sprintf("(and (<= 0 %s) (< %s %s))", v, v, ln) }
